@@ -259,3 +259,150 @@ def expected_summary(p):
         m.tid, (w // 2048) % 16, w % 16, qr, fl, sec, qtext, qtc, raw0, raw, qtext, qtc, raw0,
         str((opt[0].ttl // 65536) % 256) if opt else "-", str(opt[0].ttl // 16777216) if opt else "-", nopts,
         opt[0].cls if opt else 512))
+
+
+# ---------------------------------------------------------------------------------------------
+# executable statement of the acceptance policy (property C02), independent of model and code
+
+class IllFormed(Exception):
+    pass
+
+
+def _bad_char(c):
+    return c < 32 or c == 127 or c == 46 or c == 92
+
+
+def wf_name(p, off, allow_ptr=True, check_chars=True):
+    """validates the name written at `off`; returns the position after it.
+    Pointers: at most 16, strictly backward (target before the start of the segment containing the
+    pointer, and a segment never runs into the one it was reached from), never to a root label."""
+    n = len(p)
+    if off >= n:
+        raise IllFormed("name starts outside the packet")
+    total = 0
+    refs = 16
+    barrier = n       # the current segment must stay below this
+    low = off         # start of the current segment: pointers must target < low
+    end = None
+    pos = off
+    while True:
+        if pos >= barrier:
+            raise IllFormed("name runs into the segment it came from / off the packet")
+        b = p[pos]
+        if b & 0xC0 == 0xC0:
+            if not allow_ptr:
+                raise IllFormed("pointer in a name that must be pointer-free")
+            if refs == 0:
+                raise IllFormed("more than 16 pointers")
+            refs -= 1
+            if pos + 2 > n:
+                raise IllFormed("truncated pointer")
+            t = ((b & 0x3F) << 8) | p[pos + 1]
+            if t >= low:
+                raise IllFormed("pointer not strictly backward")
+            if p[t] == 0:
+                raise IllFormed("pointer to a root label")
+            if end is None:
+                end = pos + 2
+            barrier, low, pos = low, t, t
+            continue
+        if b > 63:
+            raise IllFormed("label type")
+        if pos + 1 + b > n or (b > 0 and pos + 1 + b >= n + 1):
+            raise IllFormed("label off the packet")
+        if b >= n - pos:
+            raise IllFormed("label off the packet")
+        total += b + 1
+        if total > 255:
+            raise IllFormed("name longer than 255")
+        if b == 0:
+            return end if end is not None else pos + 1
+        if check_chars and any(_bad_char(c) for c in p[pos + 1:pos + 1 + b]):
+            raise IllFormed("forbidden character in label")
+        pos += 1 + b
+
+
+def wellformed(p):
+    """raises IllFormed unless `p` is well-formed under the parser's policy"""
+    p = bytes(p)
+    n = len(p)
+    if n < 12:
+        raise IllFormed("no header")
+    qd, an, ns, ar = (p[4 + 2 * i] * 256 + p[5 + 2 * i] for i in range(4))
+    qr = p[2] >> 7
+    if qd != 1:
+        raise IllFormed("not exactly one question")
+    off = wf_name(p, 12)
+    if off + 4 > n:
+        raise IllFormed("question truncated")
+    if p[off + 2] * 256 + p[off + 3] != 1:
+        raise IllFormed("question class")
+    off += 4
+    if not qr and (an or ns):
+        raise IllFormed("answers in a query")
+    opt_seen = False
+    for sec, cnt in ((0, an), (1, ns), (2, ar)):
+        for _ in range(cnt):
+            if off >= n:
+                raise IllFormed("record starts at/after the end")
+            start = off
+            ne = wf_name(p, off)
+            if ne + 10 > n:
+                raise IllFormed("record header truncated")
+            typ = p[ne] * 256 + p[ne + 1]
+            rdlen = p[ne + 8] * 256 + p[ne + 9]
+            rs = ne + 10
+            re_ = rs + rdlen
+            if re_ > n:
+                raise IllFormed("rdata off the packet")
+            if typ == 41:
+                if sec != 2:
+                    raise IllFormed("OPT outside additional")
+                if ne - start != 1:
+                    raise IllFormed("OPT owner not root")
+                if opt_seen:
+                    raise IllFormed("second OPT")
+                opt_seen = True
+                o = rs
+                while o < re_:
+                    if o + 4 > re_:
+                        raise IllFormed("option header")
+                    o += 4 + p[o + 2] * 256 + p[o + 3]
+                if o != re_:
+                    raise IllFormed("options do not tile rdata")
+            elif typ in (2, 5, 12):
+                if rdlen == 0 or wf_name(p, rs) != re_:
+                    raise IllFormed("name does not fill rdata")
+            elif typ == 15:
+                if rdlen <= 2 or wf_name(p, rs + 2) != re_:
+                    raise IllFormed("MX shape")
+            elif typ == 6:
+                if rdlen <= 21:
+                    raise IllFormed("SOA too short")
+                e1 = wf_name(p, rs)
+                e2 = wf_name(p, e1)
+                if e2 + 20 != re_:
+                    raise IllFormed("SOA shape")
+            elif typ == 39:
+                if rdlen == 0 or wf_name(p, rs, allow_ptr=False, check_chars=False) != re_:
+                    raise IllFormed("DNAME shape")
+            elif typ == 1:
+                if rdlen != 4:
+                    raise IllFormed("A length")
+            elif typ == 28:
+                if rdlen != 16:
+                    raise IllFormed("AAAA length")
+            off = re_
+    if off != n:
+        raise IllFormed("bytes left over")
+    return True
+
+
+def is_wellformed(p):
+    try:
+        wellformed(p)
+        return True, ""
+    except IllFormed as e:
+        return False, str(e)
+    except IndexError:
+        return False, "read outside the packet"
